@@ -387,7 +387,34 @@ def rule_stream_param_untouched_(ctx: Ctx, rep: Report) -> None:
     sigcommon.rule_stream_param_untouched(ctx, rep, "C03.stream_param_untouched", ("btclib.ecc.",), 3)
 
 
+def rule_preimages_take_values_whole(ctx: Ctx, rep: Report) -> None:
+    """C03.preimages_take_values_whole: what BIP340's challenge and the sign-to-contract
+    tweak hash is the caller's octets as they are, after the fixed-width
+    fields: `x_K || x_Q || msg` and `R || commit_hash`. The value expressions
+    of `ssa.challenge_` and `commit_nonce._tweak` (locals inlined, normal
+    form) have the converted parameter itself in that place -- not a digest
+    of it above some length, not a padded copy: either makes two different
+    inputs one preimage, or the batch verifier disagree with the bindings."""
+    from sa import values as VX
+    rule = "C03.preimages_take_values_whole"
+    ch = ctx.func("btclib.ecc.ssa.challenge_")
+    vx = VX.of(ch)
+    ok = vx.anywhere("tagged_hash(b'BIP0340/challenge', b''.join([$$k, $$q, bytes_from_octets(msg)]), hf)") or \
+        vx.anywhere("tagged_hash(b'BIP0340/challenge', $$k + $$q + bytes_from_octets(msg), hf)") or \
+        vx.anywhere("tagged_hash(b'BIP0340/challenge', b''.join(($$k, $$q, bytes_from_octets(msg))), hf)")
+    rep.ob(rule, "ssa.challenge_:msg", ok, ch.where(), "x_K || x_Q || msg, the message as it is" if ok else
+           "the challenge preimage does not end in the caller's message as it is: a rewritten message is another challenge than BIP340's, and than the bindings'")
+    tw = ctx.func("btclib.ecc.commit_nonce._tweak")
+    vx = VX.of(tw)
+    ok = vx.anywhere("bytes_from_point(receipt, ec) + bytes_from_octets(commit_hash)") or vx.anywhere("b''.join([bytes_from_point(receipt, ec), bytes_from_octets(commit_hash)])")
+    rep.ob(rule, "commit_nonce._tweak:commit_hash", ok, tw.where(), "R || commit_hash, the committed value as it is" if ok else
+           "the tweak preimage does not end in the committed value as it is: a padded or rewritten value lets one receipt open for several values")
+    rep.floor(rule, 2)
+
+
 RULES = [
+    ("C03.preimages_take_values_whole", rule_preimages_take_values_whole),
+
     ("C03.stream_param_untouched", rule_stream_param_untouched_),
 
     ("C03.commitment_hashed_by_both_sides", rule_commitment_hashed_by_both_sides),
